@@ -34,5 +34,16 @@ s=re.sub(r'<!-- ASBUILT:BEGIN -->.*?<!-- ASBUILT:END -->', lambda m:'<!-- ASBUIL
 mp=f'{V}/seeded/MATRIX.md'
 if os.path.exists(mp):
     s=re.sub(r'<!-- MATRIX:BEGIN -->.*?<!-- MATRIX:END -->', lambda m:'<!-- MATRIX:BEGIN -->\n'+open(mp).read()+'<!-- MATRIX:END -->', s, flags=re.S)
+fixed=['| property | commit | what failed |','|---|---|---|']; opn=['| property | signature | what fails, and why it is not repaired here |','|---|---|---|']
+for l in open(f'{V}/KNOWN_FINDINGS.txt'):
+    l=l.rstrip('\n')
+    m=re.match(r'fixed: property=(C\d\d) (\S+) (.*)',l)
+    if m: fixed.append('| %s | %s | %s |'%(m.group(1),m.group(2),m.group(3).replace('|','\\|')))
+    m=re.match(r'open: property=(C\d\d) sig=(\S+) (.*)',l)
+    if m: opn.append('| %s | `%s` | %s |'%(m.group(1),m.group(2).replace('C%s/'%m.group(1)[1:], ''),m.group(3).replace('|','\\|')))
+fixed[2:]=sorted(fixed[2:]); opn[2:]=sorted(opn[2:])
+s=re.sub(r'<!-- FIXED:BEGIN -->.*?<!-- FIXED:END -->', lambda m:'<!-- FIXED:BEGIN -->\n'+'\n'.join(fixed)+'\n<!-- FIXED:END -->', s, flags=re.S)
+s=re.sub(r'<!-- OPEN:BEGIN -->.*?<!-- OPEN:END -->', lambda m:'<!-- OPEN:BEGIN -->\n'+'\n'.join(opn)+'\n<!-- OPEN:END -->', s, flags=re.S)
+print('fixed:',len(fixed)-2,'open:',len(opn)-2)
 open(f'{V}/DESIGN.md','w').write(s)
 print('DESIGN.md updated')
